@@ -142,6 +142,7 @@ def _(c):
     T = lambda x: x.a.self  # noqa: E731
     c.requires("wf", lambda x: wf(x.h0, T(x)))
     c.requires("node is a fresh, unattached node whose parent belongs to the tree", lambda x: And(x.h0.alloc(x.a.node), x.h0.inP(T(x), x.h0._parent(x.a.node)), x.a.node != x.h0._root(T(x)), x.h0._children(x.a.node) == LNONE,
+                                                                                                   Or(L.v_is_int(x.h0._data_id(x.a.node)), L.v_is_str(x.h0._data_id(x.a.node))),
                                                                                                    L.cls_of(x.a.node) == If(L.cls_of(T(x)) == L.CLS["TypedTree"], L.CLS["TypedNode"], L.CLS["Node"])))
 
     def clash(x):
